@@ -34,6 +34,16 @@ def gen(seed, idx, tier):
         p.update(screening=True, steps=(2, 6), n_terminals=0, field_kinds=("const", "ramp"))
     scn = scen.gen_physics(rnd, **p)
     scn["meta"]["flavour"] = flavour
+    if rnd.random() < 0.15:
+        # solver life cycle: solve() twice on the same TDGLSolver object; or an interrupt inside the
+        # update followed by a resume (the abandoned step's side effects must not leak)
+        if rnd.random() < 0.5:
+            scn["solve_twice"] = True
+        else:
+            scn["options"]["pause_on_interrupt"] = True
+            scn["observer"] = {"output": None, "answers": ["y", "y"]}
+            scn["faults"] = scn.get("faults", []) + [{"kind": "sigint", "at": {"point": "line", "func": rnd.choice(["update", "adaptive_euler_step", "solve_for_observables"]), "ordinal": rnd.randint(10, 400), "stage": "S"}}]
+        scn["meta"]["lifecycle"] = True
     if flavour == "randinit":
         # seeded initial state through the public psi_init attribute: |psi| > 1, exact zeros, random phases
         scn["psi_init"] = {"seed": rnd.randrange(10**6), "amp": rnd.choice([0.5, 1.0, 1.5, 3.0]), "zeros": rnd.choice([0.0, 0.1, 0.5]), "phases": rnd.random() < 0.7}
